@@ -147,19 +147,12 @@ def _value(text):
     return int(text) if text else 0
 
 
-def rule_builder_cases(ctx, rep):
-    R_ = 'V12-BUILDER-CASES'
-    rep.rule(R_, 'every sequence of building operations (bounded length, argument alphabet covering each case the code distinguishes): the rendering '
-                 'is ASCII digits of the reported length; a step that reports an error changes no query result and no field; a successful step keeps '
-                 'all previously placed non-zero digits in order; put adds its digits into free positions; shift(p) multiplies the rightmost p-digit '
-                 'group (or an implicit 1) by 10^p; a frozen builder refuses every mutator; zeros are accepted by put only while the value is zero and '
-                 'are kept; reset gives the state of new(); no operation or query reaches a panic site')
+def _verdicts(ctx):
     res = explore(ctx, OPS, 3 if ctx.tier == 'thorough' else 2, 'full')
     res2 = explore(ctx, OPS_SMALL, 5 if ctx.tier == 'thorough' else 4, 'small')
     for r in (res, res2):
         if r[0] == 'unsupported':
-            rep.anchor(R_, 'machine', 'the abstract machine cannot interpret the digit builder: %s' % r[1])
-            return
+            return ('unsupported', r[1])
     recs = res[1] + res2[1]
     fresh = res[2]
     bad = {}
@@ -252,6 +245,26 @@ def rule_builder_cases(ctx, rep):
         if op == 'reset' and after != fresh:
             diff = [(QUERY_GRID[i] if i < len(QUERY_GRID) else 'field', fresh[i], after[i]) for i in range(len(after)) if fresh[i] != after[i]][:2]
             bad.setdefault('reset-is-new', (seq, 'after reset() the builder differs from new(): %s' % diff))
+    return ('ok', bad, n)
+
+
+def verdicts(ctx):
+    """('ok', {clause: (sequence, why)}, steps) or ('unsupported', message); memoised."""
+    return ctx.memo(('dsvm-verdicts',), lambda: _verdicts(ctx))
+
+
+def rule_builder_cases(ctx, rep):
+    R_ = 'V12-BUILDER-CASES'
+    rep.rule(R_, 'every sequence of building operations (bounded length, argument alphabet covering each case the code distinguishes): the rendering '
+                 'is ASCII digits of the reported length; a step that reports an error changes no query result and no field; a successful step keeps '
+                 'all previously placed non-zero digits in order; put adds its digits into free positions; shift(p) multiplies the rightmost p-digit '
+                 'group (or an implicit 1) by 10^p; a frozen builder refuses every mutator; zeros are accepted by put only while the value is zero and '
+                 'are kept; reset gives the state of new(); no operation or query reaches a panic site')
+    v = verdicts(ctx)
+    if v[0] == 'unsupported':
+        rep.anchor(R_, 'machine', 'the abstract machine cannot interpret the digit builder: %s' % v[1])
+        return
+    _ok, bad, n = v
     msgs = {'no-panic': 'no operation or query reaches a panic site', 'rendering': 'rendering = ASCII digits of the reported length',
             'emptiness': 'is_empty / is_null agree with the rendering', 'error-changes-nothing': 'an Err step changes no query result and no field',
             'frozen-refuses': 'a frozen builder refuses every mutator with Err(Frozen)', 'digits-kept': 'successful steps keep placed non-zero digits in order',
